@@ -7,6 +7,7 @@ import (
 	gofs "io/fs"
 	"os"
 	"path/filepath"
+	"strings"
 
 	"github.com/moby/patternmatcher"
 	"github.com/tonistiigi/fsutil"
@@ -201,6 +202,58 @@ func run1101(in Sx) Sx {
 	return L(L(out...), verdict)
 }
 
+// c11NearPrefixList: a pattern list on the boundary of filter.go's "prefix-only" classification
+// (NewFilterFS onlyPrefixIncludes / onlyPrefixExcludeExceptions, which arm the SkipDir shortcuts of
+// filterFS.Walk): wildcard-free prefixes (literal, L/*, L/**) plus ONE pattern whose tail is a stack
+// of two or more trailing globs below a directory of the view (L/*/**, L/**/*, L/*/*, L/**/**,
+// L/*/**/*, also with empty L): patternWithoutTrailingGlob must strip exactly one of them.
+// side 'i': include list, the stacked pattern is an inclusion; side 'e': exclude list = something
+// covering L plus the stacked pattern as an exception ('!').
+func c11NearPrefixList(r *Rng, paths []string, side byte) []string {
+	base := ""
+	if len(paths) > 0 {
+		cs := splitPath(Pick(r, paths))
+		for try := 0; try < 4 && len(cs) < 3; try++ { // prefer paths with something two levels below L
+			cs = splitPath(Pick(r, paths))
+		}
+		k := 1
+		if len(cs) > 2 {
+			k = 1 + r.Intn(len(cs)-2)
+		}
+		if len(cs) > 1 || r.Chance(70) {
+			base = strings.Join(cs[:k], "/") + "/"
+		}
+	}
+	stacked := base + Pick(r, []string{"*/**", "*/**", "*/**", "**/*", "*/*", "**/**", "*/**/*"})
+	var out []string
+	if side == 'e' {
+		cover := strings.TrimSuffix(base, "/")
+		if cover == "" || r.Chance(30) {
+			cover = Pick(r, []string{"*", "**"})
+			if len(paths) > 0 && r.Bool() {
+				cover = splitPath(Pick(r, paths))[0]
+			}
+		}
+		out = append(out, cover, "!"+stacked)
+	} else {
+		out = append(out, stacked)
+	}
+	for n := r.Intn(3); n > 0; n-- {
+		q, _ := genPrefixPattern(r, paths)
+		if side == 'e' && r.Bool() {
+			q = "!" + q
+		}
+		if validPattern(q) {
+			if r.Bool() {
+				out = append(out, q)
+			} else {
+				out = append([]string{q}, out...)
+			}
+		}
+	}
+	return out
+}
+
 // c11Plain: the entries hardlinkFilter.Walk and the Hardlinks validator look at: everything that is
 // neither a directory nor a symlink (regular files, FIFOs, devices, sockets). mkstat gives a Linkname
 // to every such entry with Nlink > 1 whose inode was seen before.
@@ -363,15 +416,42 @@ func genC11(g *Gen) {
 			c11LinkGroups(r, v, 35)
 		}
 		var inc, exc []Sx
-		for k := r.Intn(3); k > 0; k-- {
-			inc = append(inc, S(Pick(r, pats)))
-		}
-		for k := r.Intn(3); k > 0; k-- {
-			exc = append(exc, S(Pick(r, pats)))
+		near := i%5 == 4
+		if near { // stacked trailing globs next to wildcard-free prefixes, on a deep view
+			if r.Bool() {
+				v = c10DeepView(r, []string{"a", "b", "ab", "c", "d"})
+				c11LinkGroups(r, v, 35)
+			}
+			ps := viewPaths(v)
+			var raw []string
+			for try := 0; try < 5; try++ {
+				raw = c11NearPrefixList(r, ps, "ie"[i/5%2])
+				if c11ModesAgree(raw, ps) { // otherwise: late-shadow domain (known finding K1)
+					break
+				}
+				raw = nil
+			}
+			for _, q := range raw {
+				if i/5%2 == 0 {
+					inc = append(inc, S(q))
+				} else {
+					exc = append(exc, S(q))
+				}
+			}
+		} else {
+			for k := r.Intn(3); k > 0; k-- {
+				inc = append(inc, S(Pick(r, pats)))
+			}
+			for k := r.Intn(3); k > 0; k-- {
+				exc = append(exc, S(Pick(r, pats)))
+			}
 		}
 		cls := "e2e-unfiltered"
 		if len(inc)+len(exc) > 0 {
 			cls = "e2e-filtered"
+		}
+		if near {
+			cls += "+stacked-trailing-globs"
 		}
 		links := 0
 		for _, st := range WalkEntries(v) {
@@ -404,6 +484,9 @@ func genC11(g *Gen) {
 			names = append(append([]string{}, small[:4]...), c10UnsafeNames...)
 		}
 		v := GenView(r, TreeOpts{MaxEntries: 5 + r.Intn(12), MaxDepth: 4, Names: names, Types: r.Chance(45), HardLinks: true, Owners: r.Chance(30)})
+		if i%6 == 5 && r.Bool() { // deep bushy views for the stacked-trailing-glob class
+			v = c10DeepView(r, names)
+		}
 		if r.Chance(50) {
 			c11LinkGroups(r, v, 35)
 		}
@@ -417,10 +500,17 @@ func genC11(g *Gen) {
 			}
 		}
 		var inc, exc []string
-		switch i % 4 {
-		case 0:
+		near := i%6 == 5
+		switch {
+		case near && i/6%2 == 0:
+			inc = c11NearPrefixList(r, paths, 'i')
+			classes["stacked-trailing-globs"]++
+		case near:
+			exc = c11NearPrefixList(r, paths, 'e')
+			classes["!stacked-trailing-globs"]++
+		case i%4 == 0:
 			inc = genPatternList(r, paths, v, classes, 1)
-		case 1:
+		case i%4 == 1:
 			exc = genPatternList(r, paths, v, classes, 2)
 		default:
 			inc = genPatternList(r, paths, v, classes, 0)
@@ -438,6 +528,9 @@ func genC11(g *Gen) {
 		}
 		mt := L()
 		cls := "wire"
+		if near {
+			cls += "+stacked-trailing-globs"
+		}
 		if unsafeNames {
 			cls += "+unsafe-names"
 		}
